@@ -165,7 +165,13 @@ package ring
 //@   # entry absent, tokens file present: registered with exactly the file's tokens, ACTIVE when there are enough of them
 //@   ensures  fromfile: (in == nil || !in(old(i).ID, astype(in, "*Desc").Ingesters)) && len(tokensFromFile) > 0 ==>
 //@              in(i.ID, ringDesc.Ingesters) && same(ringDesc.Ingesters[i.ID].Tokens, tokensFromFile) && same(i.tokens, tokensFromFile) &&
-//@              (len(tokensFromFile) >= i.cfg.NumTokens ==> ringDesc.Ingesters[i.ID].State == ACTIVE)
+//@              (len(tokensFromFile) >= i.cfg.NumTokens ==> ringDesc.Ingesters[i.ID].State == ACTIVE && i.state == ACTIVE)
+//@   # ... and with too few of them it stays in the remembered (PENDING) state, so that the join tops the tokens up first
+//@   ensures  fromfile_short: (in == nil || !in(old(i).ID, astype(in, "*Desc").Ingesters)) && len(tokensFromFile) > 0 && len(tokensFromFile) < i.cfg.NumTokens ==>
+//@              ringDesc.Ingesters[i.ID].State == old(i).state && i.state == old(i).state
+//@   # so an absent entry is registered ACTIVE only with the full token count
+//@   ensures  active_full: (in == nil || !in(old(i).ID, astype(in, "*Desc").Ingesters)) && old(i).state != ACTIVE && r0 != nil && in(i.ID, ringDesc.Ingesters) && ringDesc.Ingesters[i.ID].State == ACTIVE ==>
+//@              len(ringDesc.Ingesters[i.ID].Tokens) >= i.cfg.NumTokens
 //@   # entry absent, no tokens file: registered without tokens in the remembered state
 //@   ensures  fresh: (in == nil || !in(old(i).ID, astype(in, "*Desc").Ingesters)) && len(tokensFromFile) == 0 ==>
 //@              in(i.ID, ringDesc.Ingesters) && len(ringDesc.Ingesters[i.ID].Tokens) == 0 && ringDesc.Ingesters[i.ID].State == old(i).state
